@@ -30,6 +30,7 @@ type Opts struct {
 	DFS       bool // depth-first state queue
 	ExtraArgs []string
 	KeepDir   bool
+	HeapMB    int // -Xmx for this run (0 = the JVM default, a quarter of the machine)
 }
 
 type Result struct {
@@ -95,6 +96,9 @@ func Run(o Opts) Result {
 		o.Timeout = 5 * time.Minute
 	}
 	args := []string{"-XX:+UseParallelGC", "-Xss64m"}
+	if o.HeapMB > 0 {
+		args = append(args, fmt.Sprintf("-Xmx%dm", o.HeapMB))
+	}
 	if o.DFS {
 		args = append(args, "-Dtlc2.tool.queue.IStateQueue=StateDeque")
 	}
